@@ -411,6 +411,34 @@ fn check_semver(ctx: &Ctx, arts: &[SArt], os: bool, arch: bool, req_i: usize) ->
     if !arts.is_empty() {
         ctx.class("roundtrip:non-empty");
     }
+    // the same round trip with the unit digest `()`, which admits any algorithm name and digest length: mixed-case names,
+    // odd lengths
+    let names = ["SHA256", "Md5", "x", "sha256"];
+    let mut inv_u = Inventory::<semver::Version, (), Meta>::new();
+    for (i, a) in arts.iter().enumerate() {
+        let b = sart_build(a);
+        let sum = &a.sum[..a.sum.len().min(1 + i % 5)];
+        let checksum = match format!("{}:{}", names[i % names.len()], hexs(sum)).parse() {
+            Ok(c) => c,
+            Err(_) => continue,
+        };
+        inv_u.push(Artifact { version: b.version, os: b.os, arch: b.arch, url: b.url, checksum, metadata: b.metadata });
+    }
+    let text_u = inv_u.to_string();
+    let back_u: Inventory<semver::Version, (), Meta> = match text_u.parse() {
+        Ok(b) => b,
+        Err(e) => return Err(Fail::new("C18:rendered-inventory-does-not-parse", format!("unit digest: {e}; text: {text_u}"))),
+    };
+    ensure!(back_u.artifacts.len() == inv_u.artifacts.len(), "C18:roundtrip-length", "unit digest: {} vs {}", back_u.artifacts.len(), inv_u.artifacts.len());
+    let mut rest: Vec<_> = back_u.artifacts.iter().collect();
+    for a in inv_u.artifacts.iter() {
+        match rest.iter().position(|b| *b == a) {
+            Some(i) => {
+                rest.swap_remove(i);
+            }
+            None => return Err(Fail::new("C18:roundtrip-artifact-differs", format!("unit digest: {a:?} is not among the artifacts read back"))),
+        }
+    }
     Ok(())
 }
 
@@ -495,7 +523,7 @@ fn run_checksums(ctx: &Ctx) {
         }
     }
     // (b) real digests around the valid lengths
-    let prefixes: [Option<&str>; 8] = [Some("sha256"), Some("sha512"), Some("sha25"), Some("SHA256"), Some(""), None, Some("sha256 "), Some(" sha256")];
+    let prefixes: [Option<&str>; 13] = [Some("sha256"), Some("sha512"), Some("sha25"), Some("SHA256"), Some(""), None, Some("sha256 "), Some(" sha256"), Some("sha+256"), Some("sha0256"), Some("sha+512"), Some("sha0512"), Some("sha-256")];
     for (dname, size) in [("sha256", 32usize), ("sha512", 64)] {
         for pre in prefixes {
             for len in (2 * size - 2)..=(2 * size + 2) {
